@@ -10,17 +10,17 @@ open Gin Gin.Parser
     atoms, numbers with a leading minus, runs of adjacent string literals, lists, dicts, the three
     parenthesis shapes `()`, `(x)`, "at least one comma", optional trailing commas, line breaks and
     comments after every opener, colon, comma, closer and string piece, to any nesting depth — parses
-    to exactly that literal and stops right after it (trivia skipped).  `NoStr rest`: what follows is
+    to exactly that literal and stops right after it (trivia skipped).  `NoStr false rest`: what follows is
     not yet another string literal (which Python, too, would concatenate). -/
-theorem parseValue_complete (l : L) (rest : List Token) (hr : Clean rest) (hns : NoStr rest) :
-    parseValue false (size l) (render l ++ rest) = .ok (val l, dropTriv rest) :=
-  parse_render l (size l) rest hr hns (Nat.le_refl _)
+theorem parseValue_complete (l : L) (rest : List Token) (hr : Clean rest) (hns : NoStr false rest) :
+    parseValue false (size l) (render l ++ rest) = .ok (val l, dropTriv false rest) :=
+  parse_render false l (size l) rest hr hns (Nat.le_refl _)
 
 /-- More fuel never changes the answer (the fuel only bounds nesting). -/
 theorem parseValue_complete_fuel (l : L) (n : Nat) (rest : List Token) (hr : Clean rest)
-    (hns : NoStr rest) (h : size l ≤ n) :
-    parseValue false n (render l ++ rest) = .ok (val l, dropTriv rest) :=
-  parse_render l n rest hr hns h
+    (hns : NoStr false rest) (h : size l ≤ n) :
+    parseValue false n (render l ++ rest) = .ok (val l, dropTriv false rest) :=
+  parse_render false l n rest hr hns h
 
 /-- `(x)` is `x`, not a tuple … -/
 theorem paren_is_value (j0 : List Bool) (x : L) (j : List Bool) : val (.paren j0 x j) = val x := by
@@ -34,7 +34,7 @@ theorem one_tuple_needs_comma (j0 n1 j : List Bool) (x : L) :
 /-- The layout (trivia and trailing commas) never matters: two renderings of the same literal tree
     that differ only in layout parse to the same value. -/
 theorem layout_irrelevant (l₁ l₂ : L) (r₁ r₂ : List Token) (h₁ : Clean r₁) (h₂ : Clean r₂)
-    (n₁ : NoStr r₁) (n₂ : NoStr r₂) (hv : val l₁ = val l₂) :
+    (n₁ : NoStr false r₁) (n₂ : NoStr false r₂) (hv : val l₁ = val l₂) :
     (parseValue false (size l₁) (render l₁ ++ r₁)).toOption.map (·.1) =
     (parseValue false (size l₂) (render l₂ ++ r₂)).toOption.map (·.1) := by
   rw [parseValue_complete l₁ r₁ h₁ n₁, parseValue_complete l₂ r₂ h₂ n₂]
@@ -48,9 +48,9 @@ theorem statement_rejects_trailing (stmts : List PStmt) (ts : List Token)
 
 /-- A leading minus must be followed by a number-like token (`-@f`, `-%m`, `-[1]` are errors). -/
 theorem minus_requires_basic (t : Token) (ts : List Token) (hminus : isOp t "-" = true)
-    (hc : Clean ts) (hnb : isBasic (cur (dropTriv ts)) = false) :
+    (hc : Clean ts) (hnb : isBasic (cur (dropTriv false ts)) = false) :
     ∃ m, parseBasic false (t :: ts) = .error (.syntax m) := by
-  simp [parseBasic, cur_cons, hminus, adv_clean t ts hc, hnb]
+  simp [parseBasic, cur_cons, hminus, adv_clean false t ts hc, hnb]
 
 /-- Adjacent string literals concatenate piecewise; mixing `str` and `bytes` is an error. -/
 theorem adjacent_strings_concat (a b : String) :
